@@ -32,7 +32,7 @@ theorem powmodAux_eq (m : Nat) (hm : 0 < m) : ∀ (fuel r b e : Nat), r < m → 
       · rw [if_pos hodd, hodd, Nat.pow_one]
         rw [Nat.mul_mod (r * b % m), Nat.mod_mod, ← Nat.mul_mod]
         congr 1
-        simp only [Nat.mul_assoc, Nat.mul_comm, Nat.mul_left_comm]
+        simp only [Nat.mul_assoc, Nat.mul_comm]
       · have : e % 2 = 0 := by omega
         rw [if_neg hodd, this, Nat.pow_zero, Nat.mul_one]
 
@@ -61,7 +61,7 @@ theorem leNat_ge_byte (b : List UInt8) : ∀ i, 256 ^ i * (b.getD i 0).toNat ≤
       have := ih j
       simp only [List.getD_cons_succ, leNat_cons, Nat.pow_succ]
       calc 256 ^ j * 256 * (t.getD j 0).toNat = 256 * (256 ^ j * (t.getD j 0).toNat) := by
-            simp only [Nat.mul_assoc, Nat.mul_comm, Nat.mul_left_comm]
+            simp only [Nat.mul_assoc, Nat.mul_comm]
         _ ≤ 256 * leNat t := Nat.mul_le_mul_left _ this
         _ ≤ _ := Nat.le_add_left _ _
 
